@@ -7,11 +7,13 @@ import (
 	"strings"
 
 	"github.com/cockroachdb/errors"
+	"github.com/cockroachdb/errors/errorspb"
 
 	"verifharness/core"
 	"verifharness/gen"
 	"verifharness/model"
 	"verifharness/obs"
+	"verifharness/sim"
 )
 
 // tierN picks a count by tier.
@@ -182,3 +184,5 @@ func sample(t *gen.Node, extra map[string]interface{}) map[string]interface{} {
 	}
 	return m
 }
+
+func driftOwner(a, b *errorspb.EncodedError) string { return famShort(sim.DriftOwner(a, b)) }
